@@ -128,7 +128,11 @@ def spell(rng, t, style):
         s += (" " if not style.get("wide") else rng.choice([" ", "  ", "\n    "])) + k + "=" + q + esc(v, True, q) + q
     if not t[2] and not t[3]:
         return s + ("/>" if style["selfclose"] == "tight" else " />" if style["selfclose"] == "space" else "></" + t[0] + ">")
-    s += ">" + esc(t[2], False)
+    if style.get("padtext") and t[2] and not t[3]:
+        # the text of a leaf on a line of its own, as pretty-printers (and indiserver, for BLOBs) write it
+        s += ">\n    " + esc(t[2], False) + "\n  "
+    else:
+        s += ">" + esc(t[2], False)
     ind = style.get("indent")
     for k in t[3]:
         s += ("\n  " if ind and not t[2] else "") + spell(rng, k, style)
